@@ -23,14 +23,23 @@ def run(tier: str) -> int:
     modes = ("interp", "gen")
     specvssuite.run(rep, max_len=6000 if thorough else 700)  # the oracle itself must accept what the repository's suite blesses
     if not thorough:
-        fams = [{"Family": "stack", "MaxLen": 4, "Starts": "zero", "Sample": 1500, "workers": 4}]
+        fams = [
+            {"Family": "stack1", "MaxLen": 3, "Starts": "zero", "Sample": 0, "workers": 4, "style": "both"},
+            {"Family": "stack", "MaxLen": 4, "Starts": "zero", "Sample": 1000, "workers": 4},
+            {"Family": "stackdeep", "MaxLen": 3, "Starts": "zero", "Sample": 2500, "workers": 4},
+        ]
     else:
-        fams = [{"Family": "stack", "MaxLen": 5, "Starts": "zero", "Sample": 0, "workers": 12}]
+        fams = [
+            {"Family": "stack1", "MaxLen": 5, "Starts": "zero", "Sample": 0, "workers": 8, "style": "both"},
+            {"Family": "stack", "MaxLen": 5, "Starts": "zero", "Sample": 0, "workers": 12},
+            {"Family": "stackdeep", "MaxLen": 4, "Starts": "zero", "Sample": 0, "workers": 12},
+        ]
     for f in fams:
         replay.run_family(rep, f, "sem", modes)
     rep.rule = (
-        "grammars: r = { SETUP ~ MID ~ PROBE }, MID = each of the 11 stack terminals (alone / in two-element sequences) in each of 13 backtracking contexts, "
-        "3 setups x 4 probes; inputs: all strings over {a,b} up to MaxLen; a case = (grammar, input); non-trivial = reference outcome is a successful parse"
+        "grammars: r = { SETUP ~ MID ~ PROBE }, MID = each of the 11 stack terminals (alone: family stack1, complete, printed with and without redundant parentheses; in two-element sequences: family stack) "
+        "in each of 13 backtracking contexts, 3 setups x 4 probes; family stackdeep: an inner construct that commits stack changes nested in an outer alternative / optional / predicate that then fails, "
+        "5^4 operation choices x 4 inner x 4 outer shapes x 2 setups x 3 probes; inputs: all strings over the family alphabet up to MaxLen; a case = (grammar, input); non-trivial = reference outcome is a successful parse"
     )
     rep.exhaustive = thorough
     rep.assumptions = ["PEEK[a..b] with indices outside the stack is outside the domain (pest fails, Python clamps; no statement pins it)"]
